@@ -50,6 +50,15 @@ def _divide_and_round(a: float, b: float) -> int:
     return q
 
 
+def _exact_total(delta: timedelta) -> timedelta:
+    """
+    The value total_seconds() stands for, as an exact native timedelta.
+    """
+    native = timedelta.__add__(delta, timedelta())
+
+    return abs(native) if isinstance(delta, AbsoluteDuration) else native
+
+
 class Duration(timedelta):
     """
     Replacement for the standard timedelta class.
@@ -338,7 +347,11 @@ class Duration(timedelta):
 
     def __add__(self, other: timedelta) -> Self:
         if isinstance(other, timedelta):
-            return self.__class__(seconds=self.total_seconds() + other.total_seconds())
+            delta = _exact_total(self) + _exact_total(other)
+
+            return self.__class__(
+                days=delta.days, seconds=delta.seconds, microseconds=delta.microseconds
+            )
 
         return NotImplemented
 
@@ -346,7 +359,11 @@ class Duration(timedelta):
 
     def __sub__(self, other: timedelta) -> Self:
         if isinstance(other, timedelta):
-            return self.__class__(seconds=self.total_seconds() - other.total_seconds())
+            delta = _exact_total(self) - _exact_total(other)
+
+            return self.__class__(
+                days=delta.days, seconds=delta.seconds, microseconds=delta.microseconds
+            )
 
         return NotImplemented
 
